@@ -75,7 +75,7 @@ impl Terminal for RecTerm {
 const NARROW: [u32; 6] = [0x20, 0x61, 0x62, 0x78, 0x2500, 0xE9];
 const WIDE: [u32; 3] = [0x4E16, 0x754C, 0x1F600];
 const ZERO: [u32; 2] = [0x0301, 0x07];
-const NFACES: u64 = 5;
+const NFACES: u64 = 7;
 const NIMAGES: u64 = 3;
 const NGLYPHS: u64 = 2;
 
@@ -86,12 +86,17 @@ struct Pools {
 }
 
 fn pools() -> Pools {
+    let red = Some(RGBA::new(200, 30, 30, 255));
+    let blue = Some(RGBA::new(20, 40, 160, 255));
     let faces = vec![
         Face::default(),
-        Face::new(Some(RGBA::new(200, 30, 30, 255)), None, FaceAttrs::EMPTY),
-        Face::new(None, Some(RGBA::new(20, 40, 160, 255)), FaceAttrs::EMPTY),
+        Face::new(red, None, FaceAttrs::EMPTY),
+        Face::new(None, blue, FaceAttrs::EMPTY),
         Face::new(Some(RGBA::new(250, 250, 10, 255)), Some(RGBA::new(10, 90, 10, 255)), FaceAttrs::BOLD),
-        // the value frame() uses to initialise its tracked face
+        // pairs that differ in one component only
+        Face::new(red, None, FaceAttrs::BOLD),
+        Face::new(red, blue, FaceAttrs::EMPTY),
+        // the value frame() used to initialise its tracked face with
         Face::default().with_bg(Some(RGBA::new(1, 2, 3, 255))),
     ];
     // pixels per cell are 20 x 10: cell sizes 1x1, 2x3, 3x2 (the last one through rounding up)
@@ -507,7 +512,7 @@ struct Gen<'a> {
 impl<'a> Gen<'a> {
     fn face(&self, rng: &mut Rng) -> u8 {
         if rng.chance(1, 40) {
-            4
+            (NFACES - 1) as u8
         } else if rng.chance(2, 5) {
             0
         } else {
@@ -537,7 +542,7 @@ impl<'a> Gen<'a> {
         let (h, w) = (self.h, self.w);
         let r = rng.below(h as u64) as usize;
         let c = rng.below(w as u64) as usize;
-        match rng.below(16) {
+        match rng.below(19) {
             0 | 1 => s[r][c] = self.narrow(rng),
             2 | 3 => {
                 // a wide character
@@ -582,14 +587,19 @@ impl<'a> Gen<'a> {
                     }
                 }
             }
-            10 => {
-                // a cell under an image
+            10 | 16 | 17 => {
+                // a cell under an image / glyph: anywhere in its rectangle
                 let is = self.cells_where(s, |x| x.k != 0);
                 if !is.is_empty() {
                     let (r, c) = *rng.pick(&is);
-                    let r2 = (r + rng.below(3) as usize).min(h - 1);
-                    let c2 = (c + 1 + rng.below(2) as usize).min(w - 1);
-                    s[r2][c2] = self.narrow(rng);
+                    let owner = s[r][c];
+                    if let Some((eh, ew)) = self.env.extent(self.p, owner) {
+                        let r2 = (r + rng.below(eh.max(1) as u64) as usize).min(h - 1);
+                        let c2 = (c + rng.below(ew.max(1) as u64) as usize).min(w - 1);
+                        if (r2, c2) != (r, c) {
+                            s[r2][c2] = self.narrow(rng);
+                        }
+                    }
                 }
             }
             11 | 12 => {
